@@ -809,6 +809,15 @@ def rt_cases(prop):
             *[S('top', [J('a'), J('b', duration=3), J('f1', duration=None, forever=True), J('f2', duration=None, forever=True),
                         J('f3', duration=None, forever=True), J('f4', duration=None, forever=True)],
                 [(2, 0), (3, 0), (4, 0), (5, 0)], window=2, salt=str(k)) for k in range(3)],
+            # a job handed to a full window in the very loop iterations in which a slot changes hands:
+            # two holders finishing k iterations apart, a queued job, and a successor of the first holder
+            *[S('top', [J('a', duration=2, yields=k), J('b', duration=2), J('c', duration=9), J('q1', duration=4),
+                        J('q2', duration=4), J('t', duration=4)], [(5, 1)], window=3, salt=str(s_)) for k in range(5) for s_ in range(2)],
+            *[S('top', [J('a', duration=2, yields=k), J('b', duration=2), J('q1', duration=4), J('t', duration=4)],
+                [(3, 1)], window=2, salt=str(s_)) for k in range(5) for s_ in range(2)],
+            # slow reaction to cancellation at a timeout / critical failure
+            S('top', [J('a', duration=9, cancel_delay=0.25), J('b', duration=9, cancel_delay=0.5)], timeout=2),
+            S('top', [S('in', [J('a', duration=9, cancel_delay=0.25)], timeout=2), J('z', duration=1)], [(1, 0)]),
             # a tolerated failure first, a critical one later, along chains of critical / non-critical schedulers
             S('top', [S('n1', [S('n2', [J('t', outcome='raise'), J('x', duration=2, critical=True, outcome='raise')],
                                  critical=True)], critical=True), J('y', duration=5)], critical=True),
